@@ -1,4 +1,5 @@
 import SFV.Proofs.Param
+import SFV.Model.ParamDecomp
 
 /-!
 # C10 — symbolic parameters behave exactly like the values they stand for
@@ -35,6 +36,33 @@ theorem par_evaluate_subst (env : Env V) (bf : String → Option Rat) (bm : Nat 
     (p.subst (numSubst bf bm)).eval env = p.eval (env.override bf bm) :=
   param_eval_subst env _ _ (pulls_numSubst env bf bm) p
 
+/-- **`dtype`**: `par_evaluate(p, dtype)` casts the values of the atoms, not the constants of the
+expression — for the substituted parameter: -/
+theorem par_evaluate_dtype_subst (cast : V → V) (env : Env V) (bf : String → Option Rat) (bm : Nat → Option Rat)
+    (p : Param) :
+    (p.subst (numSubst bf bm)).evalCast cast env = p.eval ((env.cast cast).override bf bm) :=
+  param_eval_subst _ _ _ (pulls_numSubst (env.cast cast) bf bm) p
+
+/-- … so symbolic and substituted agree under a `dtype` whenever the substituted numbers are
+representable in it (`cast` leaves them alone) -/
+theorem par_evaluate_dtype_commutes (cast : V → V) (env : Env V) (bf : String → Option Rat) (bm : Nat → Option Rat)
+    (hc : ∀ q : Rat, cast (ValOps.ofRat q) = ValOps.ofRat q) (p : Param) :
+    (p.subst (numSubst bf bm)).evalCast cast env = p.evalCast cast (env.override bf bm) := by
+  rw [par_evaluate_dtype_subst]
+  unfold Param.evalCast
+  congr 1
+  unfold Env.cast Env.override
+  congr 1
+  · funext n; cases h : bf n <;> simp [h, hc]
+  · funext m; cases h : bm m <;> simp [h, hc]
+
+/-- **`par_convert`**: the converted argument has the value of the Blackbird expression in which
+`q<i>` stands for the outcome of subsystem `i` — for every number of digits of `i` — and any other
+symbol for the free parameter of that name; it fails exactly when that one fails -/
+theorem par_convert_eval (env : Env V) (e e' : Expr) (h : convert e = some e') :
+    (eval env e').toOption = (eval env.blackbird e).toOption :=
+  eval_convert env e e' h
+
 /-- **`par_regref_deps` is sound**: the value of a parameter depends on the measured subsystems
 only through the subsystems `par_regref_deps` reports -/
 theorem deps_sound (env₁ env₂ : Env V) (p : Param) (hf : env₁.free = env₂.free)
@@ -62,7 +90,7 @@ theorem error_names_atom (env : Env V) (e : Expr) (err : PErr) (h : eval env e =
   eval_error env e err h
 
 /-- **decomposition is a homomorphism**, for every template built from expression constructors
-(in particular the ten of `template`), every parameter list and inverse flag: decomposing the
+(in particular the ten that `harness/gen/gen_templates.py` extracts from `ops.py` into `template`), every parameter list and inverse flag: decomposing the
 symbolic gate and evaluating the result is the same as evaluating the gate's parameters first and
 decomposing numerically (classes, positions, inverse flags and evaluated parameters agree) -/
 theorem decompose_eval (env : Env V) (t : List TCmd) (ps : List Expr) (vs : List V) (d : Bool)
@@ -135,6 +163,36 @@ theorem latest_outcome_counterexample :
     (runSegs (fun _ => none) {} [((fun k => if k = 1 then some (7 : Rat) else none), [.use (.meas 1)])]).trace = [7] ∧
     lastOutcome 1 ([.use (.meas 1)] : List (Cmd Rat)) = none := by
   decide +kernel
+
+/-- **`run([a…, b…])` is `run(a…)` followed by `run(b…)`**: same applied values, same error, same
+engine afterwards -/
+theorem calls_compose (free : String → Option V) (e : Eng V) (a b : List (Regs V × List (Cmd V))) (r : Regs V)
+    (h : (runCall free e a).1.fin = .ok r) :
+    runCall free e (a ++ b) =
+      (⟨(runCall free e a).1.trace ++ (runCall free (runCall free e a).2 b).1.trace,
+        (runCall free (runCall free e a).2 b).1.fin⟩, (runCall free (runCall free e a).2 b).2) := by
+  rw [runCall_append, h]
+
+/-- **a failed segment is rolled back**: when the segments `a` run and the next one raises, the
+call reports the values applied so far and the error, and the engine is exactly what it was after
+`a` — whatever follows in the list is not run, and a later call continues from there -/
+theorem failed_segment_rolled_back (free : String → Option V) (e : Eng V) (a b : List (Regs V × List (Cmd V)))
+    (own r : Regs V) (cmds : List (Cmd V)) (err : PErr) (h : (runCall free e a).1.fin = .ok r)
+    (hs : (runSeg free (runCall free e a).2 own cmds).1.fin = .error err) :
+    runCall free e (a ++ (own, cmds) :: b) =
+      (⟨(runCall free e a).1.trace ++ (runSeg free (runCall free e a).2 own cmds).1.trace, .error err⟩,
+       (runCall free e a).2) := by
+  rw [runCall_append, h]
+  simp only [runCall, hs]
+
+/-- a call reports what `runSegs` computes, so the theorems above speak about every call of a session -/
+theorem call_is_runSegs (free : String → Option V) (e : Eng V) (segs : List (Regs V × List (Cmd V))) :
+    (runCall free e segs).1 = runSegs free e segs :=
+  runCall_fst free e segs
+
+/-- `eng.reset()` starts a new computation: what follows does not depend on anything before -/
+theorem reset_forgets (free : String → Option V) (e : Eng V) (evs : List (Ev V)) :
+    runEvents free e (.reset :: evs) = runEvents free {} evs := rfl
 
 /-- the same inside one program: the register after an error-free run holds the most recent outcome
 of every subsystem, and nothing for a subsystem never measured -/
@@ -211,6 +269,20 @@ example : ((decompose "CXgate" [.mul (.num 2) (.meas 0)] true).map fun l => l.ma
 example : ([Expr.mul (.num 2) (.meas 1), .free "a"].mapM (eval exEnv)) = .ok [3, -2] := by decide +kernel
 -- merging `D(q1)` with `D(a)†`
 example : eval exEnv (mergeP0 (.meas 1) (.free "a") false true) = .ok (7 / 2) := by decide +kernel
+
+example : classify "q10".toList = .meas 10 ∧ classify ['q', '1', '2', '3'] = .meas 123 ∧
+    classify ['a', 'l', 'p', 'h', 'a'] = .free ∧ classify ['q', 'x'] = .bad := by decide +kernel
+-- every index below 300, whatever its number of digits
+example : ∀ m < 300, classify ('q' :: Nat.toDigits 10 m) = .meas m := by decide +kernel
+example : templateNames.all (fun n => (template n).isSome) = true ∧ templateNames.length = 10 := by decide +kernel
+example : (Param.arr2 [[.lit 1, .sym ex], [.lit 2, .lit 3]]).isSymbolic = true ∧
+    (Param.arr2 [[.lit 1, .sym ex], [.sym (.meas 11), .lit 3]]).deps = [1, 11] := by decide
+-- a failed call in the middle of a session: the outcome 5 measured by the failing segment is not handed over
+example : runEvents (fun _ => none) {}
+    [.run [(Regs.empty, [.measure [10] [(3 : Rat)]])],
+     .run [(Regs.empty, [.measure [10] [5], .use (.meas 2)])],
+     .run [(Regs.empty, [.use (.meas 10)])], .reset, .run [(Regs.empty, [.use (.meas 10)])]]
+    = [([], none), ([], some (.unmeasured 2)), ([3], none), ([], some (.unmeasured 10))] := by decide +kernel
 
 /-- a history over three segments: measure 0 and 2, re-prepare 0, use q0, re-measure 0, use q0+q2 -/
 def hist : List (Regs Rat × List (Cmd Rat)) :=
